@@ -682,7 +682,7 @@ fn gen_payload(rng: &mut Rng, thorough: bool) -> Vec<u8> {
         16 | 17 => rng.range(248, 258),
         18 => rng.range(500, 700),
         _ => {
-            if thorough && rng.chance(1, 8) {
+            if thorough && rng.chance(1, 16) {
                 rng.range(64000, 64020)
             } else {
                 rng.range(60, 248)
@@ -822,6 +822,20 @@ fn pick_block(rng: &mut Rng, table: &[usize]) -> usize {
 pub fn gen_script(rng: &mut Rng, stream: &[u8], hard_errors: bool) -> String {
     let mut evs: Vec<String> = Vec::new();
     let n = stream.len();
+    if n > 20000 {
+        // very long streams: coarse reads only (the model's list-based bookkeeping is quadratic
+        // in the number of chunks of one record)
+        let k = *rng.pick(&[1000u64, 4096, 5000, 65536, 1 << 20]);
+        if rng.chance(1, 2) {
+            evs.push("x0".into());
+        }
+        if hard_errors {
+            evs.push(format!("d{}*{}", k, rng.range(0, 3)));
+            evs.push(if rng.chance(1, 3) { "e".to_string() } else { format!("x{}", rng.range(1, 5)) });
+        }
+        evs.push(format!("d{}*{}", k, n + 1));
+        return evs.join(",");
+    }
     let eintr = rng.below(4); // 0: none, else 1/(2+eintr)
     let push = |evs: &mut Vec<String>, rng: &mut Rng, e: String| {
         if eintr > 0 && rng.chance(1, 2 + eintr) {
@@ -899,7 +913,7 @@ impl Family for ChunkerFamily {
         Box::new(ChunkerExec::new())
     }
 
-    /// Every stream over {FE, FD, 01, 61} up to length 5 (7 thorough) x block sizes
+    /// Every stream over {FE, FD, 01, 61} up to length 5 (6 thorough) x block sizes
     /// {0,1,2,3,4} x read sizes {1,2,3,everything}; plus the F1 reproducer.
     fn enumerated(&self, thorough: bool) -> Vec<Vec<String>> {
         let mut cases = Vec::new();
@@ -912,7 +926,7 @@ impl Family for ChunkerFamily {
             f1.push("drain 12 2".to_string());
         }
         cases.push(f1);
-        for s in all_strings(&[FE, FD, 0x01, 0x61], if thorough { 7 } else { 5 }) {
+        for s in all_strings(&[FE, FD, 0x01, 0x61], if thorough { 6 } else { 5 }) {
             let mut ops = Vec::new();
             for b in [0usize, 1, 2, 3, 4] {
                 for d in [1usize, 2, 3, 1000] {
@@ -935,9 +949,11 @@ impl Family for ChunkerFamily {
         let hard = rng.chance(1, 8);
         let script = gen_script(rng, &stream, hard);
         let mut ops = vec![format!("stream {}", to_hex(&stream)), format!("script {}", script)];
+        let long = stream.len() > 20000;
+        let block = if long { *rng.pick(&[4096usize, 5000, 65536, 100000, 524288]) } else { block };
         ops.push(format!("block {}", block));
         let nev = script.split(',').count();
-        if rng.chance(1, 4) {
+        if !long && rng.chance(1, 4) {
             // vary the block size between pumps
             for _ in 0..rng.range(1, 6) {
                 ops.push("pump".to_string());
@@ -964,7 +980,7 @@ impl Family for ReaderFamily {
         Box::new(ReaderExec::new())
     }
 
-    /// Every stream over {FE, FD, 00, 01, 61} up to length 5 (6 thorough) x block sizes
+    /// Every stream over {FE, FD, 00, 01, 61} up to length 5 x block sizes
     /// {none,0,1,2,3} x read sizes {1,2,everything}, always-KeepGoing judge; the crate's own
     /// test vectors; judges answering SkipRecord/Stop at every consultation.
     fn enumerated(&self, thorough: bool) -> Vec<Vec<String>> {
@@ -993,7 +1009,8 @@ impl Family for ReaderFamily {
             }
         }
         cases.push(ut);
-        for s in all_strings(&[FE, FD, 0x00, 0x01, 0x61], if thorough { 6 } else { 5 }) {
+        for s in all_strings(&[FE, FD, 0x00, 0x01, 0x61], 5) {
+            let _ = thorough;
             let mut ops = Vec::new();
             for b in ["none", "0", "1", "2", "3"] {
                 for d in [1usize, 2, 1000] {
@@ -1038,6 +1055,11 @@ impl Family for ReaderFamily {
         let hard = rng.chance(1, 10);
         let script = gen_script(rng, &stream, hard);
         let mut ops = vec![format!("stream {}", to_hex(&stream)), format!("script {}", script)];
+        let block = if stream.len() > 20000 {
+            rng.pick(&["4096", "5000", "65536", "none", "100000"]).to_string()
+        } else {
+            block
+        };
         ops.push(format!("block {}", block));
         let nseg = ref_segments(&stream).len();
         match rng.below(10) {
